@@ -355,7 +355,7 @@ def type_attr(interp, tv, attr, node):
 
 
 HOOKS = {"getattr": [], "setattr": [], "index": [], "setitem": [], "slice": [], "binop": [], "unop": [],
-         "cmp": [], "contains": [], "inplace": [], "unpack": []}
+         "cmp": [], "contains": [], "inplace": [], "unpack": [], "eq": []}
 
 
 def _run(kind, *a):
@@ -827,7 +827,13 @@ def _str_join(interp, sv, args, kwargs, node):
             if not isinstance(x, VStr):
                 raise_py(interp, "TypeError", "sequence item: expected str instance", node)
             t = x.term if t is None else z3.Concat(t, sv.term, x.term)
-        return VStr(t if t is not None else z3.StringVal(""))
+        if t is None:
+            return VStr(z3.StringVal(""))
+        if len(items) >= 2:
+            if not hasattr(interp.ctx, "join_terms"):
+                interp.ctx.join_terms = {}
+            interp.ctx.join_terms[t.get_id()] = (sv.term, [x.term for x in items], t)
+        return VStr(t)
     return interp.specfuns.join_sym(interp, sv, it, node)
 
 
